@@ -127,8 +127,10 @@ def touch (j : Journal) (pn : Nat) (f : Rec → Rec × Nat) : Journal × Nat :=
     | none => (j, 0)
   else (j, 0)
 
-/-- `update_largest`: `Ok` iff the frame's largest ≤ `sent_packets.largest()` (one past the last sent!). -/
-def updateLargestOk (j : Journal) (n : Nat) : Bool := decide (n ≤ j.largest)
+/-- `update_largest`: `Ok` iff the frame's largest < `sent_packets.largest()` (= the next pn to send), i.e. the number was
+really sent (fixed code, `repo_patches/fix-C10-ack-of-unsent.diff`; before the fix the test was `≤`: an ACK of the next,
+unsent number was accepted — DESIGN §7 #25). -/
+def updateLargestOk (j : Journal) (n : Nat) : Bool := decide (n < j.largest)
 
 /-- `NewPacketGuard::pn()`: (pn, encoded pn) — only while a guard exists. -/
 def guardPn (s : State) : Option (Nat × Res PacketNumber) :=
